@@ -32,6 +32,10 @@ def D(bs, chunk, old, new):
     return "D %d %d %s %s" % (bs, chunk, vlib.hexs(old), vlib.hexs(new))
 
 
+def DS(bs, chunk, old, new):
+    return "DS %d %d %s %s" % (bs, chunk, vlib.hexs(old), vlib.hexs(new))
+
+
 def gen_cases(seed, tier, consts):
     r = vlib.rng_for(seed, "C04")
     CH = consts["CHUNK_SIZE"]
@@ -88,22 +92,29 @@ def gen_cases(seed, tier, consts):
     for old, new in ((b"", b""), (b"", b"a"), (b"a", b""), (b"a", b"a"), (b"ab", b"ba")):
         for bs in (1, 2, 3):
             cases.append(("edge", D(bs, CH, old, new)))
-    # (e) window families with the real CHUNK: lengths around CHUNK multiples, matches straddling refills
+    # (e) window families with the real CHUNK (streaming generator only; the extracted model costs ~30 us per byte and pass)
     big = []
-    for bs in ([2048, 4096] if q else [512, 4096, 8192, 30000]):
-        for mult, d in ([(1, 1), (1, -1), (2, 0)] if q else [(1, 0), (1, 1), (1, -1), (1, bs + 1), (1, -bs - 1), (2, 0), (2, 1), (2, -1), (3, 1)]):
+    for bs in ([4096] if q else [512, 4096, 8192, 30000]):
+        for mult, d in ([(1, 1), (1, -1)] if q else [(1, 0), (1, 1), (1, -1), (1, bs + 1), (1, -bs - 1), (2, 0), (2, 1), (2, -1), (3, 1)]):
             n = mult * CH + d
             old = rb(r, n)
-            new = bytearray(rb(r, r.randrange(0, 4)) + old)
+            new = bytearray(rb(r, r.randrange(1, 4)) + old)
             for _ in range(r.randrange(0, 4)):
                 new[r.randrange(len(new))] ^= 0x5A
-            big.append(("window", D(bs, CH, old, bytes(new[:n + r.randrange(0, 3)]))))
+            big.append(("window", DS(bs, CH, old, bytes(new[:n + r.randrange(0, 3)]))))
     # blocks at the cap: literals pending across a refill, trailing partial block matched
     for bs in ([MAXB] if q else [MAXB, MAXB // 2]):
-        for k in ([1, 3] if q else [0, 1, 2, 3, 5]):
+        for k in ([1] if q else [0, 1, 2, 3, 5]):
             old = rb(r, 2 * bs + r.randrange(0, 900))
             new = rb(r, k) + old + (b"" if k % 2 else rb(r, 1))
-            big.append(("cap", D(bs, CH, old, new)))
+            big.append(("cap", DS(bs, CH, old, new)))
+    # matches that end exactly on a window boundary: aligned identical files, and shifted matches landing on it
+    # (every gate: lengths CHUNK, CHUNK+1, CHUNK+bs; block sizes dividing and not dividing CHUNK)
+    plan = [(4096, CH, 0), (4096, CH + 4096, 0), (MAXB, CH, 0), (MAXB, CH + 1, 0), (1000, CH + 1, CH % 1000), (512, CH + 512, 0)] if q else \
+           [(bs, n, k) for bs in (512, 1000, 4096, 65536, 100000, MAXB) for n in (CH - 1, CH, CH + 1, CH + bs, 2 * CH, 2 * CH + 1) for k in (0, CH % bs)]
+    for bs, n, k in plan:
+        old = rb(r, n)
+        big.append(("boundary", DS(bs, CH, old, rb(r, k) + old)))
     cases += big
     # rolling checksum: random roll sequences, modulo-boundary patterns
     for _ in range(250 if q else 3000):
@@ -137,13 +148,13 @@ def oracle(case, out):
     if out in ("PANIC", "BADCASE") or out.startswith("CRASH"):
         return False, "implementation crashed: " + out[:80]
     kv = parse_kv(out)
-    if t[0] == "D":
+    if t[0] in ("D", "DS"):
         new, old = t[4], t[3]
         oldlen = 0 if old == "-" else len(old) // 2
-        for k in ("app", "apps"):
+        for k in (("app", "apps") if t[0] == "D" else ("apps",)):
             if kv.get(k) != new:
                 return False, "%s differs from new" % k
-        for k in ("mem", "str"):
+        for k in (("mem", "str") if t[0] == "D" else ("str",)):
             for o in (kv.get(k, "-").split(",") if kv.get(k, "-") != "-" else []):
                 if o.startswith("C"):
                     off, sz = map(int, o[1:].split(":"))
@@ -164,7 +175,7 @@ def oracle(case, out):
 def signature(case, out):
     """branch-coverage signature used for distinct_nontrivial"""
     t = case.split(" ")
-    if t[0] != "D":
+    if t[0] not in ("D", "DS"):
         return None
     kv = parse_kv(out)
     ops = kv.get("str", "-")
@@ -254,7 +265,7 @@ def run(tier, seed):
     res.cov["rule"] = ("cases generated from one PRNG (seed) in families small/struct/weakcoll/edge/window/cap/roll/wire + corpus; "
                        "a D case is non-trivial when its streaming op list contains both a Copy and a Data op; distinct = distinct "
                        "(op-kind sequence prefix, block size, length class, stream==mem) signatures")
-    res.cov["samples"] = [short(c, 200) for (_, c) in cases[:3]] + [short(c, 200) for (f, c) in cases if f in ("window", "wire", "roll")][:3]
+    res.cov["samples"] = [short(c, 200) for (_, c) in cases[:3]] + [short(c, 200) for (f, c) in cases if f in ("window", "wire", "roll", "boundary")][:3]
     res.cov["trusted_base"] = TRUSTED_COMMON + [
         "xxh3 (strong hash): theorems C04_recon_* are relative to collision-freedom between blocks of old and blocks of new; closed for the identity instance (C04_recon_id)",
         "serde_json and zstd round-trip laws (hypotheses of C04_wire_transparent), exercised through the real sy-remote",
